@@ -26,6 +26,13 @@ MARK0 = 1000
 TAG_A, TAG_B = "\x01", "\x02"
 IND1, IND0 = "\x03", "\x04"          # continuation indent / base indent of the statement
 OPS = ["Select", "Where", "SelectMany"]
+# identifiers that are substrings / superstrings of the keywords the scanner looks for ("lambda", "def"):
+# used as dataset variables, helper names, attribute names, attribute hops and parameter names
+DS_NAMES = ["a", "b", "d", "l", "m", "am", "da", "e", "f"]                  # all bound to the dataset
+HELPER_NAMES = ["compare", "lam", "lambd", "lambda_", "de", "ef", "define", "defs"]   # return their first argument
+HOP_NAMES = ["a", "d", "l", "m", "am", "da", "lam", "lambd", "lambda_", "de", "ef", "define", "f", "e"]  # stream.<hop> is the stream
+ATTR_NAMES = ["v", "v", "a", "l", "m", "da", "lam", "lambda_", "de", "ef"]   # sample-object attributes (all = v)
+ARG_NAMES = ["e", "e", "e", "j", "x", "evt", "a", "d", "l", "m", "lam", "lambda_", "de", "f", "da"]
 
 
 def hx(s: str) -> str:
@@ -64,7 +71,17 @@ class LayoutGen:
         return m
 
     def argname(self) -> str:
-        return self.r.choice(["e", "e", "e", "j", "x", "evt"])
+        return self.r.choice(ARG_NAMES)
+
+    def dsname(self) -> str:
+        return "ds" if self.r.random() < .45 else self.r.choice(DS_NAMES)
+
+    def attr(self) -> str:
+        return self.r.choice(ATTR_NAMES)
+
+    def hop(self, p: float = .2) -> str:
+        """an attribute access between two calls of a chain (`stream.m.Select(...)`)"""
+        return "." + self.r.choice(HOP_NAMES) if self.r.random() < p else ""
 
     # -- lambda bodies.  `ml` allows line breaks (the body is inside the call's parentheses)
     def body(self, a: str, m: int, op: str, ml: bool, depth: int = 0) -> str:
@@ -77,7 +94,7 @@ class LayoutGen:
         f = r.choice(forms)
         cmt = r.choice(["  # noqa", "  # ) , lambda z: z (", "  # [ { lambda"])
         if f == "plain":
-            s = "%s.v + %d" % (a, m)
+            s = "%s.%s + %d" % (a, self.attr(), m)
         elif f == "tuple":
             s = "(%s.v, %d, %s.w)" % (a, m, a)
         elif f == "dict":
@@ -93,7 +110,7 @@ class LayoutGen:
         elif f == "comp":
             s = "[q + %d for q in %s.lst]" % (m, a)
         elif f in ("nested", "nested_same"):
-            ia = a if f == "nested_same" else r.choice(["j", "k", "q"])
+            ia = a if f == "nested_same" else r.choice(["j", "k", "q", "m", "da", "lam"])
             iop = r.choice(OPS[:2])
             im = self.marker("lambda", iop, [ia], False, False, "inner")
             s = "%s.jets.%s(%s) + (%d,)" % (a, iop, self.lam(im, [ia], iop, False, depth + 1), m)
@@ -124,6 +141,8 @@ class LayoutGen:
     # -- chains of calls
     def chain(self, recv: str = "ds", style: Optional[str] = None, lhs: str = "r = ") -> str:
         r = self.r
+        if recv == "ds":
+            recv = self.dsname() + self.hop(.15)
         style = style or r.choice(["line", "line", "black", "wrapped", "inline_then_wrapped", "funny", "funny",
                                    "backslash", "tail"])
         n = r.choice([1, 1, 2, 2, 3, 4]) if style != "tail" else r.choice([2, 3])
@@ -146,7 +165,7 @@ class LayoutGen:
             out += recv
             for i, (op, args) in enumerate(calls):
                 m = self.marker("lambda", op, args, True, uniq(i, range(n)), "line")
-                out += ".%s%s(%s)" % (op, r.choice(["", "", " "]), self.lam(m, args, op, False))
+                out += "%s.%s%s(%s)" % (self.hop() if i else "", op, r.choice(["", "", " "]), self.lam(m, args, op, False))
         elif style == "black":
             out += "(\n%s%s\n" % (IND1, recv)
             for i, (op, args) in enumerate(calls):
@@ -181,22 +200,47 @@ class LayoutGen:
             out += recv
             for i, (op, args) in enumerate(calls):
                 m = self.marker("lambda", op, args, True, False, "tail")
-                out += ".%s(%s)" % (op, self.lam(m, args, op, i == 0 or r.random() < .3))
+                out += "%s.%s(%s)" % (self.hop() if i else "", op, self.lam(m, args, op, i == 0 or r.random() < .3))
         else:  # funny: a line break at every legal point with some probability
             out += recv
             for i, (op, args) in enumerate(calls):
                 m = self.marker("lambda", op, args, True, False, "funny")
                 b1 = "\n" + IND1 + " " * r.randrange(0, 5) if r.random() < .4 else ""
                 b2 = "\n" + r.choice([IND0, IND1]) if r.random() < .3 else ""
-                out += ".%s(%s%s%s)" % (op, b1, self.lam(m, args, op, r.random() < .5), b2)
+                out += "%s.%s(%s%s%s)" % (self.hop() if i else "", op, b1, self.lam(m, args, op, r.random() < .5), b2)
         return out
 
     # -- statements that are not plain chains
     def special(self) -> List[str]:
         r = self.r
         k = r.choice(["assigned", "second_arg", "keyword", "listed", "cond_expr", "tuple", "concat", "comp",
-                      "semicolon", "helper", "default_arg", "subscript", "eager_nested", "eager_nested"])
+                      "semicolon", "helper", "default_arg", "subscript", "eager_nested", "eager_nested",
+                      "enclosed", "enclosed", "enclosed", "enclosed"])
         a = self.argname()
+        if k == "enclosed":
+            # several library calls on one logical line inside an enclosing call / tuple / list / dict, each on its
+            # own dataset variable; told apart by method name or parameter name (documented) or not (must raise)
+            n = r.choice([2, 2, 3])
+            same = r.random() < .4
+            calls = []
+            for i in range(n):
+                op = "Select" if r.random() < .5 else r.choice(OPS)
+                calls.append((op, [a if same else self.argname()]))
+            sigs = [(op, tuple(x)) for op, x in calls]
+            parts = []
+            for i, (op, args) in enumerate(calls):
+                m = self.marker("lambda", op, args, True, sigs.count(sigs[i]) == 1, "enclosed")
+                parts.append("%s%s.%s(%s)" % (self.dsname(), self.hop(.1), op, self.lam(m, args, op, False)))
+            form = r.choice(["call", "call", "call", "tuple", "list", "dict", "kwcall"])
+            if form == "call":
+                return ["r = %s(%s)" % (r.choice(HELPER_NAMES), ", ".join(parts))]
+            if form == "kwcall" and not self.real:
+                return ["r = %s(%s, %s=1)" % (r.choice(HELPER_NAMES), ", ".join(parts), r.choice(["m", "lam", "de"]))]
+            if form == "tuple":
+                return ["r = (%s)" % ", ".join(parts)]
+            if form == "dict":
+                return ["r = {%s}" % ", ".join("'%s': %s" % (r.choice(HOP_NAMES), p) for p in parts)]
+            return ["r = [%s]" % ", ".join(parts)]
         if self.real and k in ("second_arg", "keyword", "concat", "helper", "eager_nested"):
             k = "cond_expr"
         if k == "eager_nested":
@@ -233,19 +277,23 @@ class LayoutGen:
         if k == "tuple":
             m1 = self.marker("lambda", "Select", [a], True, False, "tuple")
             m2 = self.marker("lambda", "Select", [a], True, False, "tuple")
-            return ["r = ds.Select(%s), ds.Select(%s)" % (self.lam(m1, [a], "Select", False), self.lam(m2, [a], "Select", False))]
+            return ["r = %s.Select(%s), %s.Select(%s)" % (self.dsname(), self.lam(m1, [a], "Select", False),
+                                                          self.dsname(), self.lam(m2, [a], "Select", False))]
         if k == "concat":
             b = self.argname()
             m1 = self.marker("lambda", "Select", [a], True, a != b, "concat")
             m2 = self.marker("lambda", "Select", [b], True, a != b, "concat")
-            return ["r = ds.Select(%s).Concat(ds.Select(%s))" % (self.lam(m1, [a], "Select", False), self.lam(m2, [b], "Select", False))]
+            return ["r = %s.Select(%s).Concat(%s.Select(%s))" % (self.dsname(), self.lam(m1, [a], "Select", False),
+                                                                 self.dsname(), self.lam(m2, [b], "Select", False))]
         if k == "comp":
             m = self.marker("lambda", "Select", [a], True, True, "comprehension")
             return ["rs = [ds.Select(%s) for _ in range(1)]" % self.lam(m, [a], "Select", False)]
         if k == "semicolon":
             m1 = self.marker("lambda", "Select", [a], True, False, "semicolon")
             m2 = self.marker("lambda", "Where", [a], True, False, "semicolon")
-            return ["r = ds.Select(%s); r2 = ds.Where(%s)" % (self.lam(m1, [a], "Select", False), self.lam(m2, [a], "Where", False))]
+            return ["r = %s.Select(%s); %s = %s.Where(%s)" % (self.dsname(), self.lam(m1, [a], "Select", False),
+                                                              r.choice(["r2", "lam_", "de_"]), self.dsname(),
+                                                              self.lam(m2, [a], "Where", False))]
         if k == "helper":
             m = self.marker("lambda", "Select", [a], True, False, "helper")
             return ["r = ds.Select(ident(%s))" % self.lam(m, [a], "Select", False)]
@@ -404,6 +452,8 @@ def strip_tags(text: str, cases: Dict[int, Case]) -> str:
 PRELUDE = '''\
 def ident(f): return f
 def deco(f): return ident
+def compare(*xs, **kw): return xs[0]
+lam = lambd = lambda_ = de = ef = define = defs = compare
 class ctx:
     def __enter__(self): return self
     def __exit__(self, *a): return False
@@ -427,6 +477,8 @@ class S:
     def __init__(self, seed=1):
         self.seed = seed
         self.v = seed * 3
+        for n in ATTR_NAMES:
+            setattr(self, n, self.v)
         self.w = seed % 2
         self.lst = [seed, seed + 1]
 
@@ -466,6 +518,11 @@ class Fake:
     def Concat(self, other):
         return self
 
+    def __getattr__(self, name):
+        if name in HOP_NAMES:
+            return self
+        raise AttributeError(name)
+
 
 class Eager(Fake):
     """also executes the callable (as LINQ-to-objects would), so lambdas inside its body get passed"""
@@ -503,6 +560,11 @@ class RealProbe:
     def SelectMany(self, f):
         return self._op("SelectMany", f)
 
+    def __getattr__(self, name):
+        if name in HOP_NAMES:
+            return self
+        raise AttributeError(name)
+
 
 def real_dataset():
     from func_adl import EventDataset
@@ -520,6 +582,8 @@ def load_module(path: str, name: str, ds) -> Optional[str]:
     spec = importlib.util.spec_from_file_location(name, path)
     mod = importlib.util.module_from_spec(spec)
     mod.ds = ds
+    for n in DS_NAMES:
+        setattr(mod, n, ds)
     mod.eager = Eager(ds.log)
     sys.modules[name] = mod
     try:
